@@ -96,6 +96,8 @@ type c11Op struct {
 	Gets    []int      `json:"gets,omitempty"`
 	Len     int        `json:"len,omitempty"`
 	Revokes []c11Status `json:"revokes,omitempty"` // mix: entries to revoke concurrently (list + idx)
+	// SignFail: the injected Sign fails during this operation (key store outage after ResolveKey succeeded)
+	SignFail bool `json:"signfail,omitempty"`
 }
 
 // ---------- fast signer: HMAC over the canonical JSON without proof, key derived from the key id
@@ -191,6 +193,7 @@ type c11World struct {
 	hookList   string
 	hookIdx    string
 	hookResult string
+	signFail   bool
 }
 
 var c11Bases = []string{"https://n0.example", "https://n1.example/iam"}
@@ -347,7 +350,12 @@ func c11NewWorld(t *testing.T) *c11World {
 	for i, base := range c11Bases {
 		db := storage.NewTestStorageEngine(t).GetSQLDatabase()
 		cs := NewStatusList2021(db, w, base)
-		cs.Sign = c11Sign
+		cs.Sign = func(ctx context.Context, unsigned vc.VerifiableCredential, kid string) (*vc.VerifiableCredential, error) {
+			if w.signFail {
+				return nil, errC11KeyStoreDown
+			}
+			return c11Sign(ctx, unsigned, kid)
+		}
 		hookNode := i
 		cs.ResolveKey = func(issuer did.DID, at *time.Time, rel resolver.RelationType) (string, crypto.PublicKey, error) {
 			if w.hookArmed && w.hookNode == hookNode {
@@ -411,10 +419,14 @@ func (w *c11World) reset(dids []string) {
 	}
 }
 
+var errC11KeyStoreDown = errors.New("verif: key store unavailable")
+
 func c11ErrClass(err error) string {
 	switch {
 	case err == nil:
 		return "ok"
+	case errors.Is(err, errC11KeyStoreDown):
+		return "err:sign"
 	case errors.Is(err, types.ErrRevoked):
 		return "revoked"
 	case errors.Is(err, types.ErrNotFound):
@@ -600,6 +612,8 @@ func (w *c11World) exec(op c11Op) (line string) {
 		}
 	}()
 	ctx := context.Background()
+	w.signFail = op.SignFail && (op.Op == "entry" || op.Op == "revoke" || op.Op == "serve")
+	defer func() { w.signFail = false }()
 	switch op.Op {
 	case "reset":
 		w.reset(op.Dids)
@@ -979,7 +993,7 @@ func (g *c11Gen) next() c11Op {
 		if r.Intn(25) == 0 {
 			p = statusPurposeSuspension
 		}
-		return c11Op{Op: "entry", Node: node, Issuer: is, Purpose: p}
+		return c11Op{Op: "entry", Node: node, Issuer: is, Purpose: p, SignFail: r.Intn(10) == 0}
 	case k < 25:
 		return c11Op{Op: "race", Node: node, Issuer: g.pick(c11Issuers[:3])}
 	case k < 27:
@@ -1030,7 +1044,7 @@ func (g *c11Gen) next() c11Op {
 	case k < 64:
 		if len(g.entries) > 0 && r.Intn(5) != 0 {
 			u := g.entries[r.Intn(len(g.entries))].list
-			return c11Op{Op: "serve", Node: u.Node, Issuer: u.Issuer, Page: u.Page}
+			return c11Op{Op: "serve", Node: u.Node, Issuer: u.Issuer, Page: u.Page, SignFail: r.Intn(8) == 0}
 		}
 		return c11Op{Op: "serve", Node: node, Issuer: g.pick(c11Issuers[:4]), Page: r.Intn(4)}
 	case k < 72:
@@ -1055,6 +1069,20 @@ func (g *c11Gen) next() c11Op {
 			c11Op{Op: "serve", Node: e.list.Node, Issuer: e.list.Issuer, Page: e.list.Page})
 		g.nticks++
 		return c11Op{Op: "tick", Secs: []int{71, 72, 72, 72, 96}[r.Intn(5)]*900 + 60}
+	case k < 75 && len(g.entries) > 0:
+		// hostile sequence: the key store fails while a revocation is being signed into the list; whatever Revoke answers,
+		// the lists served afterwards, local verification and a repeated Revoke must agree with that answer
+		e := g.entries[r.Intn(len(g.entries))]
+		c := c11Cred{ID: "did:web:example.com:iam:alice#s" + strconv.Itoa(r.Intn(3)), IssuerDID: "did:web:example.com:iam:alice",
+			Statuses: []c11Status{{Type: StatusList2021EntryType, Purpose: "revocation", List: e.list, Idx: strconv.Itoa(e.idx)}}}
+		l := e.list
+		g.pending = append(g.pending,
+			c11Op{Op: "serve", Node: l.Node, Issuer: l.Issuer, Page: l.Page},
+			c11Op{Op: "verify", Node: l.Node, Cred: &c},
+			c11Op{Op: "revoke", Node: l.Node, List: &l, Idx: strconv.Itoa(e.idx), Purpose: StatusPurposeRevocation},
+			c11Op{Op: "serve", Node: l.Node, Issuer: l.Issuer, Page: l.Page},
+			c11Op{Op: "verify", Node: l.Node, Cred: &c})
+		return c11Op{Op: "revoke", Node: l.Node, List: &l, Idx: strconv.Itoa(e.idx), Purpose: StatusPurposeRevocation, SignFail: true}
 	case k < 75:
 		u := g.someList(r.Intn(2))
 		if len(g.hosted) > 0 && r.Intn(3) == 0 {
